@@ -19,7 +19,7 @@ Print Assumptions inlines_nonvacuous.
    `pos` forward, whatever the options; the whole inline phase of a block answers Ok (no Panic, no fuel exhaustion)
    on NUL-free right-trimmed content whose line_offsets cover its lines.
    (inlines_total_full_statement is refuted as stated - missing premises, section 1e; proved: no fuel exhaustion
-   at all, 1f; all Panic sites but 25, 1g.) *)
+   at all, 1f; all Panic sites but 16, 1g.) *)
 Definition parse_inline_advances_full_statement : Prop :=
   forall memo o u inp lo sl refmap maxref s s',
     parse_inline memo o u inp lo sl refmap maxref s = Ok (Some s') -> pos s < pos s'.
@@ -123,12 +123,10 @@ Print Assumptions process_emphasis_opener_matches.
 (* ---- 1d. Panic sites ----
    FULL statement inlines_total_full_statement (above) is NOT proved, and is FALSE as stated (its premises are too
    weak: 1e; inlines_total_statement there is the corrected statement).  STATE AFTER THE SECOND WAVE (1e-1g below):
-   under the premises of 1g every Panic of parse_inlines is at one of 25 REMAINING sites (inlines_remaining_sites_are):
-   the 13 stack sites of group (iii) except process_emphasis:unreachable, the 3 sites of the autolink rewind
-   (reachable on invalid UTF-8), and 9 sites of group (i) that need a bound on what a regex scanner returns
-   (handle_pointy_brace uri / email / contents, make_autolink:end_column-1, handle_close_bracket input[endurl..] /
-   input[starttitle..] / input[endtitle..] / title, clean_title).  Groups (i) otherwise and (ii) entirely are
-   proved unreachable (51 sites, inlines_unreachable_sites_are).  The first-wave analysis, kept:
+   under the premises of 1g every Panic of parse_inlines is at one of 16 REMAINING sites (inlines_remaining_sites_are):
+   the 13 stack sites of group (iii) (all but process_emphasis:unreachable) and the 3 sites of the autolink rewind
+   (reachable on invalid UTF-8).  Groups (i) and (ii) are proved unreachable entirely (60 sites with the leaf
+   sites, inlines_unreachable_sites_are).  The first-wave analysis, kept:
    The Panic sites of Model/Inlines.v fall in four groups; what excludes each:
    (i) local arithmetic (pos-1, endpos-openticks, slices of the input ...): excluded by pos <= |input| and by
        what the scanning helper just returned.  PROVED for handle_backticks (backticks_local_sites_unreachable:
@@ -396,9 +394,10 @@ Print Assumptions inlines_total_partial_final_emphasis_unreachable.
 (* ---- 1g. which Panic sites the inline phase can answer (Proofs/InlinesTotal2Sites.v, InlinesTotal2Walk.v) ----
    PROVED, every option set / oracle / reference map / memo switch: on right-trimmed content whose first line is not
    blank and whose line endings (LF, CR LF, bare CR) are covered by the line-offset table, with the reference budget
-   within its maximum, a Panic of parse_inlines is at one of the 25 sites of `inlines_remaining_sites` (spelled out
-   in inlines_remaining_sites_are); the other 51 sites - of Model/Inlines.v, of the column arithmetic of
-   make_inline / end_column, of the autolink leaf functions - are UNREACHABLE (inlines_total_partial_unreachable).
+   within its maximum, a Panic of parse_inlines is at one of the 16 sites of `inlines_remaining_sites` (spelled out
+   in inlines_remaining_sites_are); the other 60 sites - of Model/Inlines.v, of the column arithmetic of
+   make_inline / end_column, of clean_title and the autolink leaf functions - are UNREACHABLE
+   (inlines_total_partial_unreachable).
    Invariants carried through every arm of parse_inline, the main loop and both calls of process_emphasis:
      CInv  column_offset = -(start of the current line) <= 0, that start <= pos, the byte in front of it is a line end
            (so every column make_inline / end_column computes is >= 0: each arm makes its nodes at or after the
@@ -410,15 +409,15 @@ Print Assumptions inlines_total_partial_final_emphasis_unreachable.
    The premises are what the block phase hands over (Model/Parse.v run_leaves: content, line offsets, start line of
    a Paragraph / Heading / TableCell; budget from 0) - that the block phase establishes them is NOT proved here.
    No premise on NUL bytes or UTF-8 validity: the sites that need them are among the remaining ones.
-   REMAINING (25), by the invariant that would exclude them:
+   What a re2c scanner answers is bounded generically (Proofs/InlinesTotal2Scan.v: a block of plain rules with
+   action `return Some(cursor)` answers a length between the minimal length of its regular expressions and the
+   length of its argument), which closes the slice sites of handle_pointy_brace / handle_close_bracket.
+   REMAINING (16), by the invariant that would exclude them:
      (S) the stacks name Text siblings in stack order (13): insert_emph x8, process_emphasis closer / opener
          text_mut().unwrap(), bracket inl_text not among the children x2, label from bracket position;
      (T) the Text siblings in front of an autolink spell the scheme, needs valid UTF-8 (3): handle_autolink_with
          last_child().unwrap(), expected text node before autolink colon [REACHABLE on invalid UTF-8: 1e],
-         end.column-reverse;
-     (P) a scanner match is at least 1 and at most the slice it was given (9): handle_pointy_brace uri / email /
-         contents, make_autolink:end_column-1, handle_close_bracket input[endurl..] / input[starttitle..] /
-         input[endtitle..] / title, clean_title (its argument is empty or a link_title match of >= 2 bytes). *)
+         end.column-reverse. *)
 From V Require Proofs.InlinesTotal2Sites Proofs.InlinesTotal2Walk.
 
 Definition inlines_remaining_sites : list String.string := InlinesTotal2Sites.remaining.
@@ -440,16 +439,7 @@ Theorem inlines_remaining_sites_are :
     "inlines.rs:handle_close_bracket:label from bracket position";
     "inlines.rs:handle_autolink_with:node.last_child().unwrap()";
     "inlines.rs:handle_autolink_with:expected text node before autolink colon";
-    "inlines.rs:handle_autolink_with:end.column-reverse";
-    "inlines.rs:handle_pointy_brace:uri";
-    "inlines.rs:handle_pointy_brace:email";
-    "inlines.rs:handle_pointy_brace:contents";
-    "inlines.rs:make_autolink:end_column-1";
-    "inlines.rs:handle_close_bracket:input[endurl..]";
-    "inlines.rs:handle_close_bracket:input[starttitle..]";
-    "inlines.rs:handle_close_bracket:input[endtitle..]";
-    "inlines.rs:handle_close_bracket:title";
-    "strings.rs:clean_title:title[1..title_len - 1]" ]%string.
+    "inlines.rs:handle_autolink_with:end.column-reverse" ]%string.
 Proof. exact (eq_refl _). Qed.
 Print Assumptions inlines_remaining_sites_are.
 
@@ -491,6 +481,10 @@ Theorem inlines_unreachable_sites_are :
     "inlines.rs:handle_entity:pos-1-len";
     "inlines.rs:handle_entity:pos-1";
     "inlines.rs:handle_pointy_brace:input[pos..]";
+    "inlines.rs:handle_pointy_brace:uri";
+    "inlines.rs:handle_pointy_brace:email";
+    "inlines.rs:handle_pointy_brace:contents";
+    "inlines.rs:make_autolink:end_column-1";
     "inlines.rs:handle_pointy_brace:pos-1-matchlen";
     "inlines.rs:handle_pointy_brace:pos-matchlen-1";
     "inlines.rs:handle_pointy_brace:pos-1";
@@ -516,6 +510,11 @@ Theorem inlines_unreachable_sites_are :
     "inlines.rs:process_emphasis:unreachable";
     "inlines.rs:brackets[brackets_len - 1]";
     "inlines.rs:RefMap::lookup:max_ref_size-ref_size";
+    "inlines.rs:handle_close_bracket:input[endurl..]";
+    "inlines.rs:handle_close_bracket:input[starttitle..]";
+    "inlines.rs:handle_close_bracket:input[endtitle..]";
+    "inlines.rs:handle_close_bracket:title";
+    "strings.rs:clean_title:title[1..title_len - 1]";
     "inlines.rs:handle_wikilink:startpos-1";
     "inlines.rs:label_backslash_escapes:start_column+offset-1";
     "autolink.rs:www_match:i+link_end-1";
